@@ -1037,7 +1037,7 @@ func c11EmitAppend(e *Emitter, c *c11Cfg, order []int, tags []string) {
 
 func genC11(tier string, seed uint64, n int, e *Emitter) {
 	if n == 0 {
-		n = 400
+		n = 300
 		if tier == "thorough" {
 			n = 6000
 		}
